@@ -122,7 +122,10 @@ def check_serialisable(issues, out, where):
 # ------------------------------------------------------------------------------------------------------------
 def string_strategy():
     from checks import c01_validate
-    return st.one_of(c01_validate.mutated_strategy([VERSION]), c01_validate.mutated_strategy([VERSION]),
+    # a third of the cases carry a fault that is about one character or one piece of a tag (offsets inside a tag)
+    inside_tag = ["ext_bad_char", "value_bad_name_char", "def_value_bad_char", "forbidden_char",
+                  "placeholder_not_allowed", "ext_not_allowed", "unit_gibberish", "value_not_numeric"]
+    return st.one_of(c01_validate.mutated_strategy([VERSION]), c01_validate.mutated_strategy([VERSION], inside_tag),
                      c01_validate.valid_strategy([VERSION]))
 
 
